@@ -21,7 +21,7 @@ from harness import common
 GEN_MODULES = ['flux']
 MODEL_TARGETS = ['model/M_Flux.vo']
 PROOF_TARGETS = ['proofs/P_Flux.vo', 'proofs/P_FluxInt.vo', 'proofs/P_FluxObj.vo', 'proofs/P_FluxStore.vo',
-                 'proofs/P_FluxDeep.vo']
+                 'proofs/P_FluxDeep.vo', 'proofs/P_FluxRv.vo']
 LEVEL = 'proof'
 RULE = ('all profile classes (unity/power-law/cut-off/log-parabola/function energy; unity/box/gaussian time; '
         'unity/point spatial) and FactorizedFluxModel with random parameters (gamma = 1, 1 +- 1e-3..1e-12, generic), '
@@ -33,7 +33,7 @@ TRUSTED = [
     'axioms printed by Print Assumptions: the standard-library real-number axioms (ClassicalDedekindReals.sig_not_dec, '
     'sig_forall_dec, functional_extensionality_dep) and Classical_Prop.classic (Coquelicot)',
     'Section hypothesis (premise of the Gaussian theorems): erf is differentiable with derivative 2/sqrt(pi) exp(-x^2)',
-    'translator/py2coq.py: per-element reading of the numpy formulas of flux_model.py / math.py (97 kernels of G_flux.v, '
+    'translator/py2coq.py: per-element reading of the numpy formulas of flux_model.py / math.py (102 kernels of G_flux.v, '
     'each pinned by one K_ lemma)',
     'hand model M_Flux.v of class dispatch, setter / set_params plumbing, constructors, deepcopy as allocation in an '
     'explicit store; validated by this correspondence',
@@ -213,6 +213,14 @@ def observe(e, store, ob):
         if type(x) in (fm.UnityEnergyFluxProfile, fm.PowerLawEnergyFluxProfile):
             return [float(np.atleast_1d(x.get_integral(ob[3], ob[4], unit=U))[0])]
         return ['quad']
+    if k == 'RP':         # extension: pdf of the scipy rv built by skyllh.core.utils.flux_model from the profile
+        from skyllh.core.utils.flux_model import create_scipy_stats_rv_continuous_from_TimeFluxProfile as mk
+        try:
+            rv = mk(x)
+        except TypeError:
+            return ['E:TypeError']
+        # the helper's own _pdf (scipy's masking to the support [a, b] = [t_start, t_stop] is scipy's business)
+        return [float(np.atleast_1d(rv.dist._pdf(np.atleast_1d(maybe_int(ob[2]))))[0])]
     if k == 'TT':
         if not isinstance(x, fm.TimeFluxProfile):
             return ['E:TypeError']
@@ -326,6 +334,8 @@ def model_line(case):
 def obs_tol(case, ob, store_kinds):
     """absolute tolerance floor for one observation (conditioning of the formula, not of the model)"""
     k = ob[0]
+    if k == 'RP':
+        return 1e-300
     if k == 'CD':
         return 1e-12
     if k == 'TT':
@@ -1243,6 +1253,7 @@ def gen_case(ctx, rng, malformed=False):
             a = rng.uniform(-150, 100); b = a + rng.uniform(0, 120)
             obs.append(['TI', l, u, a * scale, b * scale])
             obs.append(['TT', l])
+            obs.append(['RP', l, rng.uniform(-150, 150)]); ctx.count('rv-pdf-obs')
             if k in ('BX', 'GA'):
                 obs.append(['CD', l, u, rng.uniform(-150, 150) * scale])
                 obs.append(['CD', l, -1, rng.uniform(-150, 150)])
@@ -1261,6 +1272,7 @@ def gen_case(ctx, rng, malformed=False):
         for n in rng.sample(NAMES, 3):
             obs.append(['GP', l, n])
     if malformed:
+        obs.append(['RP', rng.choice([0, 1]), 1.0]); ctx.count('rv-pdf-obs-malformed')
         obs.append(['TC', 0, -1, 1.0])
         obs.append(['ST', len(kinds) + 5])
     return {'objs': objs, 'ops': ops, 'obs': obs}
@@ -1281,6 +1293,7 @@ def window_case(ctx, rng):
     for t in (ts, te, np.nextafter(ts, -np.inf), np.nextafter(ts, np.inf), np.nextafter(te, -np.inf), np.nextafter(te, np.inf)):
         obs.append(['TC', 0, -1, float(t)])
         obs.append(['CD', 0, -1, float(t)])
+        obs.append(['RP', 0, float(t)])
     for (a, b) in ((ts, te), (ts - 1, ts), (te, te + 1), (ts - 1, te + 1), (ts - 2, ts - 1), (te + 1, te + 2), (ts, ts)):
         obs.append(['TI', 0, -1, float(a), float(b)])
     ctx.count('window-edge-case:' + k)
@@ -1320,6 +1333,11 @@ def corpus_cases():
         {'objs': [['US'], ['LP', 1, 2.0, 2.0, 0.1], ['SF', 1.5, 1, 0.3, 0.2, 1]], 'ops': [['SAP', 4, 2, 'dec', 0.4], ['CW', 4, [['Phi0', 3.0], ['alpha', 2.2]]]],
          'obs': [['ST', 2], ['ST', 3], ['ST', 4], ['PR', 4, 2], ['PR', 8, 5], ['TU', 4], ['ST', 6], ['ST', 8],
                  ['FC', 8, 1, 0.3, 0.4, 1, 0.003, 1, 7.0, 1, 2], ['GP', 8, 'alpha'], ['GP', 4, 'alpha']]},
+        # extension: rv pdf inside / on the edge / outside the support, Gaussian, unity (total inf), degenerate box (total 0)
+        {'objs': [['BX', 0, 5.0, 2.0], ['GA', 1, 10.0, 2.0, 1e-6], ['UT', 0, -math.inf, math.inf], ['BX', 0, 3.0, 0.0], ['PL', 0, 1.0, 2.0]],
+         'ops': [['SA', 0, 'tw', 4.0]],
+         'obs': [['RP', 0, 5.0], ['RP', 0, 3.0], ['RP', 0, 7.0], ['RP', 0, 7.5], ['RP', 1, 11.0], ['RP', 1, 9.25], ['RP', 1, 100.0],
+                 ['RP', 2, 1.0], ['RP', 3, 3.0], ['RP', 4, 1.0], ['TT', 3]]},
         # 8f69f79: Ecut / alpha / beta are parameters
         {'objs': [['CO', 0, 1.0, 2.0, 10.0], ['LP', 0, 1.0, 2.0, 0.1]],
          'ops': [['SP', 0, [['Ecut', 5.0]]], ['SP', 1, [['alpha', 3.0], ['beta', 0.2]]]],
@@ -1383,7 +1401,7 @@ def run(ctx):
         cases.append(gen_case(ctx, rng, malformed=True))
     while len(cases) < n:
         cases.append(gen_case(ctx, rng))
-    for c in cases[10:13]:
+    for c in cases[11:14]:
         ctx.sample({'objs': c['objs'], 'ops': c['ops'], 'n_obs': len(c['obs'])})
     run_cases(ctx, cases, exe)
 
